@@ -63,6 +63,11 @@ class TOpt(T):
     def __repr__(self): return f"Opt[{self.t}]"
 
 
+class TSet(T):
+    """finite set of opaque (`Any`) elements: its characteristic predicate"""
+    def __repr__(self): return "SetOf[Any]"
+
+
 class TRec(T):
     def __init__(self, name: str):
         self.name = name
@@ -97,6 +102,7 @@ def parse_type(s: str) -> T:
     if s == "Str": return TSeq("str", TInt())
     if s == "Path": return TSeq("tuple", TInt())
     if s.startswith("Rec:"): return TRec(s[4:])
+    if s == "SetOf[Any]": return TSet()
     if s.startswith("Sort:"): return TSort(s[5:])
     m = re.match(r"^(\w+)\[(.*)\]$", s)
     if m:
@@ -155,6 +161,14 @@ class VSeq(V):
         self.elt = elt
 
     def __repr__(self): return f"VSeq<{self.kind}>(len={self.length})"
+
+
+class VSet(V):
+    """set of `Any` values: Python-level function element term -> z3 Bool"""
+    def __init__(self, member: Callable[[Any], Any]):
+        self.member = member
+
+    def __repr__(self): return "VSet"
 
 
 class VTup(V):
@@ -241,6 +255,8 @@ class Factory:
             return VRec(t.name, _uf(name, args, sort_of(t.name)))
         if isinstance(t, TSort):
             return VAny(_uf(name, args, sort_of(t.name)))
+        if isinstance(t, TSet):
+            return VSet(lambda x, name=name, args=args: _uf(name + ".has", args + [x], z3.BoolSort()))
         if isinstance(t, TSeq):
             length = _uf(name + ".len", args, z3.IntSort())
             return VSeq(t.kind, length, lambda i, t=t, name=name, args=args: self.mk(t.elt, name + ".el", args + [i]), t.elt)
